@@ -11,7 +11,7 @@ RULE = ("programs biased to textually identical gate statements in different sco
         "scope must not change the meaning of the remaining statements. Monitors: GateMemoizer.get hits (a run without cache hits "
         "is inconclusive). non-trivial = program has a name collision or a twin; distinct = S-expression")
 ASSUMPTIONS = ["lexical binding rules as implemented in core_from_sx: parameters shadow header names inside the macro body only"]
-TIERS = {"quick": {"shards": 8, "budget_s": 45}, "thorough": {"shards": 16, "budget_s": 360}}
+TIERS = {"quick": {"shards": 8, "budget_s": 100}, "thorough": {"shards": 16, "budget_s": 360}}
 REQUIRE = {"route:builder": 300, "judged-after-shifted-twin": 500, "route:text-native": 1000, "override-of-shadowed-name": 300, "route:build-lists": 300, "route:text": 300, "memo-hits": 500, "memo-hits-across-scopes": 50, "shadowing-programs": 300, "twin-programs": 300,
            "metamorphic-pairs": 200}
 
@@ -330,7 +330,7 @@ def shard(ctx):
     rec = ctx.rec
     monitors.install_contracts()
     wrap_memo()
-    n = ctx.scale(40000, 200000)
+    n = ctx.scale(12000, 200000)
     seen = {}
     i = 0
     while i < n and not rec.expired():
